@@ -196,6 +196,10 @@ class TFSFPlaneSourceRegion(TFSFPlaneSource):
         box_edges = self._box_edges()
         # Single coherent phase origin (box lower corner) reused for every face.
         center_physical = jnp.zeros(3, dtype=config.dtype)
+        if self.direction == "-":
+            # the wave enters through the upper face: take the phase origin there, so that the incident field is
+            # still outside the box at time zero (as it is for direction "+" with the lower corner)
+            center_physical = center_physical.at[p_axis].set(box_edges[p_axis][-1])
         resolution = self._region_resolution()
         omega_c = 2.0 * np.pi * self.wave_character.get_frequency()
 
